@@ -482,6 +482,23 @@ fn common(ctx: &Ctx, property: &'static str, rule: &str, floors: &[(&str, u64)],
             rep.push(r);
         }
     }
+    if sub.runs("rootless") && (property == "C10" || property == "C11") {
+        let cases = ctx.cfg.cases(30_000, 600_000);
+        let max_ops = ctx.cfg.tier.pick(14, 30);
+        let prefix = if property == "C10" { "c10:" } else { "c11:" };
+        let mut r = ctx.run_prop("rootless", cases, move || super::rootless::strategy(max_ops), move |c: &super::rootless::RootlessCase, ctx: &mut CaseCtx| match super::rootless::body(c, ctx) {
+            Err(f) if !f.key.starts_with(prefix) => {
+                ctx.label("ended_early_by_other_oracle");
+                Ok(())
+            }
+            other => other,
+        });
+        r.notes.push("histories over a rooted DOM and a DOM without a root (WeakDom::default()): parentless inserts, transfers in and out, Ref properties set across both, clone_into_external / clone_multiple_into_external into the rootless DOM, clone_within on it, clones back, destroy; own reference model".into());
+        for l in ["outside_ref_kept_in_rootless_destination", "outside_ref_nulled", "inside_ref_rewritten", "transfer_into_rootless", "clone_multiple_into_rootless"] {
+            r.floor(l, cases / 50);
+        }
+        rep.push(r);
+    }
     if sub.runs("large") {
         let cases = if ctx.cfg.replay.is_some() { vec![] } else { large_histories(ctx.cfg.tier == crate::engine::Tier::Thorough) };
         let mut r: SubReport = ctx.run_list("large", cases, true, body_for(property));
